@@ -7,7 +7,12 @@
 //!   output  (out (listing I…)                              program.to_instructions()
 //!                (print (ok TOK…) | (err qubit|label))     lex_tokens(program.to_quil())
 //!                (reparse (ok (listing I…)) | (err) | (none))  Program::from_str(text).to_instructions()
-//!                (debug TOK…))                             lex_tokens(mask(program.to_quil_or_debug()))
+//!                (debug TOK…)                              lex_tokens(mask(program.to_quil_or_debug()))
+//!                (each ok|qubit|label …)                   Instruction::to_quil of every listed instruction
+//!                (always (NAME BOOL)…)                     sibling routes that must agree for EVERY program
+//!                (wf (NAME BOOL)…))                        sibling routes that must agree for well-formed,
+//!                                                          placeholder-free programs (see `siblings`)
+//! Every error met (constructor validation, ToQuilError, parse errors) is formatted under catch_unwind.
 //! `mask` replaces the `Debug` text of a placeholder (which contains a pointer) by `PH` / `@PH`.
 use indexmap::IndexMap;
 use num_complex::Complex64;
@@ -106,8 +111,144 @@ fn run_case(ctx: &mut Ctx, stream: &str, is: Vec<Instruction>) {
                 (tagged("print", vec![tagged("err", vec![atom(k)])]), tagged("reparse", vec![tagged("none", vec![])]))
             }
         };
-        tagged("out", vec![lst, print, reparse, debug])
+        let (each, always, wf) = siblings(&is, &p);
+        tagged("out", vec![lst, print, reparse, debug, each, always, wf])
     });
+}
+
+fn fmt_err<E: std::fmt::Display + std::fmt::Debug>(e: &E) {
+    std::hint::black_box(format!("{e}").len() + format!("{e:#}").len() + format!("{e:?}").len());
+}
+
+/// `each`: the outcome of `Instruction::to_quil` for every listed instruction.
+/// `always` (must hold for every program): printing twice gives the same result; `to_quil_or_debug` equals `to_quil`
+/// when that succeeds; the program text is the concatenation of the instruction texts; into_/to_instructions agree;
+/// from_instructions == add_instruction loop == add_instructions == From<Vec>; splitting the list anywhere and
+/// adding the two programs with `+` prints the same (debug) text; the program-level error is the first
+/// instruction-level error.
+/// `wf` (must hold for well-formed placeholder-free programs): every instruction's own text parses with
+/// Instruction::from_str and re-prints identically; the printed program re-parses to P' whose text2 re-parses to an
+/// equal program with text3 == text2 (C02 on the printed text).
+fn siblings(is: &[Instruction], p: &Program) -> (Sexp, Sexp, Sexp) {
+    let l = p.to_instructions();
+    let mut each = vec![atom("each")];
+    let mut concat = String::new();
+    let mut first_err: Option<&'static str> = None;
+    let mut ifs = true;
+    for i in &l {
+        match i.to_quil() {
+            Ok(t) => {
+                each.push(atom("ok"));
+                match Instruction::from_str(&t) {
+                    Ok(j) => {
+                        // the re-parsed instruction is a fixed point of print -> parse (its expressions are in the
+                        // parser's normal form; the first text may differ from the second in layout)
+                        match j.to_quil() {
+                            Ok(t2) => match Instruction::from_str(&t2) {
+                                Ok(k) => {
+                                    if k != j || k.to_quil().ok().as_deref() != Some(t2.as_str()) {
+                                        ifs = false;
+                                    }
+                                }
+                                Err(_) => ifs = false,
+                            },
+                            Err(_) => ifs = false,
+                        }
+                    }
+                    Err(e) => {
+                        fmt_err(&e);
+                        ifs = false;
+                    }
+                }
+                concat.push_str(&t);
+                concat.push('\n');
+            }
+            Err(e) => {
+                fmt_err(&e);
+                let k = match e {
+                    ToQuilError::UnresolvedLabelPlaceholder => "label",
+                    ToQuilError::UnresolvedQubitPlaceholder => "qubit",
+                    _ => "format",
+                };
+                each.push(atom(k));
+                if first_err.is_none() {
+                    first_err = Some(k);
+                }
+            }
+        }
+    }
+    let mut always: Vec<Sexp> = vec![atom("always")];
+    let mut wf: Vec<Sexp> = vec![atom("wf")];
+    {
+        let mut put = |name: &str, b: bool| always.push(list(vec![atom(name), boolean(b)]));
+        let r1 = p.to_quil();
+        let r2 = p.to_quil();
+        put("twice", r1 == r2 && p.to_quil_or_debug() == p.to_quil_or_debug());
+        match &r1 {
+            Ok(t1) => {
+                put("debug-eq", &p.to_quil_or_debug() == t1);
+                put("instr-concat", &concat == t1 && first_err.is_none());
+            }
+            Err(e) => {
+                fmt_err(e);
+                let k = match e {
+                    ToQuilError::UnresolvedLabelPlaceholder => "label",
+                    ToQuilError::UnresolvedQubitPlaceholder => "qubit",
+                    _ => "format",
+                };
+                put("first-error", first_err == Some(k));
+            }
+        }
+        put("into-eq-to", p.clone().into_instructions() == l);
+        let mut looped = Program::new();
+        for i in is {
+            looped.add_instruction(i.clone());
+        }
+        let mut bulk = Program::new();
+        bulk.add_instructions(is.to_vec());
+        put("add-loop", &looped == p && looped.to_quil_or_debug() == p.to_quil_or_debug());
+        put("add-bulk", &bulk == p);
+        put("from-vec", &Program::from(is.to_vec()) == p);
+        let mut plus_ok = true;
+        for cut in [0, is.len() / 2, is.len()] {
+            let a = Program::from_instructions(is[..cut].to_vec());
+            let b = Program::from_instructions(is[cut..].to_vec());
+            let sum = a + b;
+            if sum.to_quil_or_debug() != p.to_quil_or_debug() || sum.to_quil().ok() != p.to_quil().ok() {
+                plus_ok = false;
+            }
+        }
+        put("plus-split", plus_ok);
+    }
+    {
+        let mut put = |name: &str, b: bool| wf.push(list(vec![atom(name), boolean(b)]));
+        put("instr-from-str", ifs);
+        if let Ok(t1) = p.to_quil() {
+            match Program::from_str(&t1) {
+                Ok(p2) => match p2.to_quil() {
+                    Ok(t2) => {
+                        put("info-text2-eq-text1", t2 == t1);
+                        match Program::from_str(&t2) {
+                            Ok(p3) => put("trip3", p3 == p2 && p3.to_quil().map(|t3| t3 == t2).unwrap_or(false)),
+                            Err(e) => {
+                                fmt_err(&e);
+                                put("trip3", false)
+                            }
+                        }
+                    }
+                    Err(e) => {
+                        fmt_err(&e);
+                        put("trip3", false)
+                    }
+                },
+                Err(e) => {
+                    fmt_err(&e);
+                    put("trip3", false)
+                }
+            }
+        }
+    }
+    (list(each), list(always), list(wf))
 }
 
 // ------------------------------------------------------------------------------------------------
@@ -116,13 +257,26 @@ fn run_case(ctx: &mut Ctx, stream: &str, is: Vec<Instruction>) {
 const NAMES: &[&str] = &[
     "a", "b", "q0", "ro", "theta", "x_1", "foo-bar", "G2", "my_gate", "Theta", "w", "iq", "e1", "amp", "_u", "pi", "i",
     "sin", "H", "RX", "inf", "NaN", "PH", "cis", "a--b", "I", "XY",
+    // reserved words / template names / gate names / constants in other letter cases: identifiers to the lexer
+    "dagger", "Dagger", "matrix", "As", "sharing", "Offset", "pauli-sum", "defgate", "measure", "Mut",
+    "flat", "gaussian", "drag_gaussian", "erf_square", "FLAT", "h", "Rx", "cnot", "PI", "Pi", "SIN", "Sqrt", "Exp",
+    "extern", "bit", "Real",
 ];
 const GATE_NAMES: &[&str] = &["RX", "H", "CNOT", "my_gate", "foo-bar", "G2", "u3", "i", "pi"];
-const STRINGS: &[&str] = &["rf", "ro", "xy", "a b", "a\"b", "a\\b", "", "#x", "q0_rf", "é", ";", "a\nb", "\""];
+const STRINGS: &[&str] = &[
+    "rf", "ro", "xy", "a b", "a\"b", "a\\b", "", "#x", "q0_rf", "é", ";", "a\nb", "\"", "\t", "a\rb", "\u{0}", "\u{1}",
+    "\u{7f}", "\u{1b}[0m", "    ", "\n", "x\n    y", "\u{85}", "\\n", "\\", "a\\\"",
+];
 const REALS: &[f64] = &[
     0.0, 1.0, 2.0, -1.0, -3.0, 0.5, -0.25, 1e15, 1e16, 999999999999999.0, 1e-5, 1e-6, 1e300, -1e300, 1e-300, 5e-324,
     3.141592653589793, 0.1, 123456789012345678.0, 4294967296.0, 1.7976931348623157e308, 100.0, 1e21, 1e22,
     -2.5, 6.02e23, 1e14,
+    // band boundaries of the number printers / the lexer
+    9.999999999999999e-6, 0.00001, 0.000009, 1e-4, 99999999999999.0, 999999999999999.9, 1000000000000000.0,
+    9999999999999998.0, 9007199254740992.0, 9007199254740994.0, 9223372036854775808.0, 18446744073709551615.0,
+    18446744073709551616.0, 3.6893488147419103e19, 1e19, 9.9e19, 1e20, 99999999999999999999.0, 1.0000000000000002,
+    2.2250738585072014e-308, 2.225073858507201e-308, 1e-323, 4294967296.0, 2147483648.0, -9223372036854775808.0,
+    -18446744073709551616.0, -1e19, -1e-5, 65536.0, 4503599627370496.0,
 ];
 
 struct G<'a> {
@@ -171,19 +325,44 @@ impl G<'_> {
         }
     }
     fn int(&mut self) -> i64 {
-        match self.r.below(8) {
+        match self.r.below(9) {
             0 => i64::MIN,
             1 => i64::MAX,
             2 => 0,
             3 => -1,
+            4 => *self.r.pick(&[
+                i64::MIN + 1,
+                -(1 << 53),
+                1 << 53,
+                -(1 << 31),
+                1 << 31,
+                (1 << 32) - 1,
+                -(1 << 32),
+                1_000_000_000_000_000,
+                -999_999_999_999_999,
+            ]),
             _ => self.r.range(-1000, 1000),
         }
     }
     fn uint(&mut self) -> u64 {
-        match self.r.below(8) {
+        match self.r.below(9) {
             0 => u64::MAX,
             1 => 0,
             2 => 1 << 63,
+            3 => *self.r.pick(&[
+                1u64,
+                (1 << 31) - 1,
+                1 << 31,
+                u32::MAX as u64,
+                1 << 32,
+                1 << 53,
+                (1 << 53) + 1,
+                (1 << 63) - 1,
+                u64::MAX - 1,
+                999_999_999_999_999,
+                1_000_000_000_000_000,
+                10_000_000_000_000_000,
+            ]),
             _ => self.r.below(12),
         }
     }
@@ -275,8 +454,9 @@ impl G<'_> {
     fn gate(&mut self) -> Gate {
         loop {
             let name = if self.r.chance(1, 3) { self.name() } else { self.r.pick(GATE_NAMES).to_string() };
-            if let Ok(g) = Gate::new(&name, self.exprs(3), self.qubits(1, 3), self.modifiers()) {
-                return g;
+            match Gate::new(&name, self.exprs(3), self.qubits(1, 3), self.modifiers()) {
+                Ok(g) => return g,
+                Err(e) => fmt_err(&e),
             }
         }
     }
@@ -376,8 +556,9 @@ impl G<'_> {
             8 => Instruction::Store(Store::new(self.name(), self.mref(), self.arith_operand())),
             9 | 10 => loop {
                 let args = (0..self.r.below(4)).map(|_| self.call_arg()).collect();
-                if let Ok(c) = Call::try_new(self.name(), args) {
-                    break Instruction::Call(c);
+                match Call::try_new(self.name(), args) {
+                    Ok(c) => break Instruction::Call(c),
+                    Err(e) => fmt_err(&e),
                 }
             },
             11 => Instruction::Capture(Capture::new(self.r.chance(2, 3), self.frame(), self.mref(), self.invocation())),
@@ -546,6 +727,87 @@ fn gen_case(rng: &mut Rng, n_max: u64) -> Vec<Instruction> {
     (0..n).map(|_| g.instruction(2)).collect()
 }
 
+/// definitions and uses sharing ONE name across kinds, in random order with repeats
+fn shared_names_case(rng: &mut Rng) -> Vec<Instruction> {
+    const POOL: &[&str] = &["X", "BELL", "w"];
+    let n = 3 + rng.below(7);
+    let mut out = Vec::new();
+    for _ in 0..n {
+        let a = rng.pick(POOL).to_string();
+        let b = rng.pick(POOL).to_string();
+        let q0 = vec![Qubit::Fixed(0)];
+        let i = match rng.below(14) {
+            0 => GateDefinition::new(a, vec![], GateSpecification::Permutation(vec![0, 1])).ok().map(Instruction::GateDefinition),
+            1 => Some(Instruction::CircuitDefinition(CircuitDefinition::new(
+                a,
+                vec![],
+                vec!["q".into()],
+                vec![Instruction::Gate(Gate::new(&b, vec![], vec![Qubit::Variable("q".into())], vec![]).unwrap())],
+            ))),
+            2 => Some(Instruction::WaveformDefinition(WaveformDefinition::new(a, Waveform::new(vec![real(1.0)], vec![b])))),
+            3 => Some(Instruction::Declaration(Declaration::new(a, Vector::new(ScalarType::Bit, 2), Some(Sharing::new(b, vec![]))))),
+            4 => Some(Instruction::Pragma(Pragma::new(
+                "EXTERN".into(),
+                vec![PragmaArgument::Identifier(a)],
+                Some("INTEGER (x : INTEGER)".into()),
+            ))),
+            5 => {
+                let mut at = IndexMap::new();
+                at.insert(b, AttributeValue::String(a.clone()));
+                Some(Instruction::FrameDefinition(FrameDefinition::new(FrameIdentifier::new(a, q0), at)))
+            }
+            6 => Some(Instruction::Label(Label::new(Target::Fixed(a)))),
+            7 => CalibrationIdentifier::new(a, vec![], vec![], q0)
+                .ok()
+                .map(|id| Instruction::CalibrationDefinition(CalibrationDefinition::new(id, vec![Instruction::Nop()]))),
+            8 => Some(Instruction::MeasureCalibrationDefinition(MeasureCalibrationDefinition::new(
+                MeasureCalibrationIdentifier::new(None, Qubit::Fixed(0), Some(a)),
+                vec![Instruction::Nop()],
+            ))),
+            9 => Gate::new(&a, vec![], q0, vec![]).ok().map(Instruction::Gate),
+            10 => Call::try_new(a, vec![UnresolvedCallArgument::Identifier(b)]).ok().map(Instruction::Call),
+            11 => {
+                let mut ps = IndexMap::new();
+                ps.insert(a.clone(), real(1.0));
+                Some(Instruction::Pulse(Pulse::new(true, FrameIdentifier::new(a, q0), WaveformInvocation::new(b, ps))))
+            }
+            12 => Some(Instruction::Jump(Jump::new(Target::Fixed(a)))),
+            _ => Some(Instruction::Measurement(Measurement::new(None, Qubit::Fixed(0), Some(MemoryReference::new(a, 0))))),
+        };
+        if let Some(i) = i {
+            out.push(i);
+        }
+    }
+    out
+}
+
+/// collections of more than 32 / 64 elements
+fn large_cases(rng: &mut Rng) -> Vec<Vec<Instruction>> {
+    let mut out = Vec::new();
+    for &n in &[33usize, 40, 65] {
+        let mut keys: Vec<usize> = (0..n).collect();
+        for i in (1..n).rev() {
+            let j = rng.below(i as u64 + 1) as usize;
+            keys.swap(i, j);
+        }
+        let mut ps = IndexMap::new();
+        for k in &keys {
+            ps.insert(format!("k{k}"), real(*k as f64));
+        }
+        let qs: Vec<Qubit> = (0..n as u64).map(Qubit::Fixed).collect();
+        out.push(vec![
+            Instruction::Pulse(Pulse::new(true, FrameIdentifier::new("rf".into(), qs.clone()), WaveformInvocation::new("w".into(), ps.clone()))),
+            Instruction::Capture(Capture::new(false, FrameIdentifier::new("rf".into(), vec![Qubit::Fixed(0)]), MemoryReference::new("ro".into(), 0), WaveformInvocation::new("v".into(), ps))),
+            Instruction::Gate(Gate::new("G", (0..n).map(|k| real(k as f64)).collect(), qs.clone(), vec![GateModifier::Dagger; n]).unwrap()),
+            Instruction::Fence(Fence::new(qs.clone())),
+            Instruction::Delay(Delay::new(real(1.0), (0..n).map(|k| format!("f{k}")).collect(), qs)),
+            Instruction::Call(Call::try_new("foo".into(), (0..n).map(|k| UnresolvedCallArgument::Immediate(Complex64::new(k as f64, -(k as f64)))).collect()).unwrap()),
+        ]);
+        out.push(keys.iter().map(|k| Instruction::Declaration(Declaration::new(format!("r{}", k % 37), Vector::new(ScalarType::Bit, *k as u64), None))).collect());
+    }
+    out
+}
+
 fn real(x: f64) -> Expression {
     Expression::Number(Complex64::new(x, 0.0))
 }
@@ -662,5 +924,15 @@ fn run(ctx: &mut Ctx) {
     for _ in 0..n_prog {
         let is = gen_case(&mut rng, 6);
         run_case(ctx, "program", is);
+    }
+    let n_shared = if ctx.quick() { 1500 } else { 50_000 };
+    let mut rng = ctx.rng(3);
+    for _ in 0..n_shared {
+        let is = shared_names_case(&mut rng);
+        run_case(ctx, "shared-names", is);
+    }
+    let mut rng = ctx.rng(4);
+    for is in large_cases(&mut rng) {
+        run_case(ctx, "large", is);
     }
 }
